@@ -2,7 +2,9 @@
    The case carries the action's config JSON and the event tree(s); the observation carries what the
    collector's own helpers made of the config and the answers of library code (oracle part), and per Do
        out = (0 (result tree)) | (2) panic | (4 #why) the event is no finite, re-parsing document any more
-     42 rename            case (#cfg tree)             obs (preserve (((#seg ...) #name) ...) out)
+     42 rename            case (#cfg tree)             obs (preserve ((#key #name) ...) ((#selector (#seg ...)) ...) out)
+                                                       the configuration's pairs without override, and cfg.ParseFieldSelector of every
+                                                       unescaped non-empty key (the model does the unescaping and the dropping itself)
      43 move              case (#cfg tree)             obs (block (#seg ...) ((#seg ...) ...) out)
                                                        block mode: the fields are the one-key selectors of the block list
      44 flatten           case (#cfg tree)             obs ((#seg ...) #prefix out)
@@ -54,18 +56,26 @@ Fixpoint seq_verdict (models outs : list sx) : verdict :=
 
 Definition as_xpath (s : sx) : option (list bytes) := as_list as_B s.
 
-Definition as_rename_op (s : sx) : option (list bytes * bytes) :=
+Definition as_sel_entry (s : sx) : option (bytes * list bytes) :=
   match s with
-  | SL [p; SB name] => match as_xpath p with Some p => Some (p, name) | None => None end
+  | SL [SB k; p] => match as_xpath p with Some p => Some (k, p) | None => None end
   | _ => None
+  end.
+(* the selector oracle as a table; a key the table does not list parses to the empty path *)
+Fixpoint table_sel (t : list (bytes * list bytes)) (k : bytes) : list bytes :=
+  match t with
+  | [] => []
+  | (a, p) :: r => if bytes_eqb a k then p else table_sel r k
   end.
 
 Definition rename_run (case obs : sx) : verdict :=
   match case, obs with
-  | SL [SB _; t], SL [pr; ops; out] =>
-      match json_of_sx t, as_bool pr, as_list as_rename_op ops with
-      | Some root, Some preserve, Some ops => do_verdict (sx_do (rename_do preserve ops root)) out
-      | _, _, _ => BadCase
+  | SL [SB _; t], SL [pr; pairs; tb; out] =>
+      match json_of_sx t, as_bool pr, as_list (fun s => match s with SL [SB a; SB b] => Some (a, b) | _ => None end) pairs,
+            as_list as_sel_entry tb with
+      | Some root, Some preserve, Some cfg, Some table =>
+          do_verdict (sx_do (rename_cfg_do (table_sel table) preserve cfg root)) out
+      | _, _, _, _ => BadCase
       end
   | _, _ => BadCase
   end.
